@@ -196,6 +196,14 @@ theorem inserted_class_is_well_formed {s s' : Snap} {n syn : Node} {f2o : SlotMa
   obtain ⟨h1, h2, h3⟩ := C08.eq_is_equivalence hcls' hv
   exact ⟨c, hcls, hid, hslots, hv, h1, h2, h3⟩
 
+/-- **lookup agrees with add, known terms create nothing — for `add` as a whole** (`Snap.add`: hit or miss): whatever `add` returns,
+`lookup` of the node afterwards names the same class, and adding the node again returns that class and leaves the state as it is -/
+theorem add_then_lookup_and_readd {s s' : Snap} {n syn syn2 : Node} {f2o f2o2 : SlotMap} {data data2 : String} {a : AppId}
+    (hok : Snap.AddOK s) (h : Snap.add s n f2o syn data = some (s', a)) :
+    (∃ m, Snap.lookup s' n = some { id := a.id, m := m }) ∧
+    (∃ m, Snap.add s' n f2o2 syn2 data2 = some (s', { id := a.id, m := m })) :=
+  ⟨Snap.lookup_after_add_total hok h, Snap.add_twice hok h⟩
+
 /-- non-vacuity: on the empty e-graph the node `f2($8, $12)` (variant 7, two slot fields) is a miss; with the fresh slots
 `101, 105` handed in, the model allocates class 0 -/
 example : ((Snap.addNew { uf := [], classes := [] } { v := 7, fields := [.slot 8, .slot 12] } [(101, 8), (105, 12)]
